@@ -170,6 +170,24 @@ Disc(c, v) ==
   IF c.variants[v].disc # NoDisc THEN c.variants[v].disc
   ELSE IF v = 1 THEN 0 ELSE Disc(c, v - 1) + 1
 
+\* The integer type the ordering impls compare discriminants in: the one named in #[repr(..)] if there is one,
+\* otherwise the narrowest signed type that holds every discriminant (the bounded instances stay within i32).
+\* Not part of a listed property's wording, but visible in the generated code and decisive for C04: a type too
+\* narrow wraps the discriminant literals silently.
+ReprIntOf(r) ==
+  CASE r \in {"u8", "u16", "u32", "u64", "usize", "i8", "i16", "i32", "i64", "isize"} -> r
+    [] r = "C, u8" -> "u8"
+    [] OTHER -> "none"
+DiscTypeOf(c) ==
+  IF ReprIntOf(c.opts.repr) # "none" THEN ReprIntOf(c.opts.repr)
+  ELSE LET ds == { Disc(c, v) : v \in 1..NVariants(c) }
+           lo == CHOOSE x \in ds : \A y \in ds : x <= y
+           hi == CHOOSE x \in ds : \A y \in ds : x >= y
+       IN IF NVariants(c) = 0 THEN "i8"
+          ELSE IF lo >= -128 /\ hi <= 127 THEN "i8"
+          ELSE IF lo >= -32768 /\ hi <= 32767 THEN "i16"
+          ELSE "i32"
+
 \* which field-comparison function an impl of operation `op` uses for its
 \* fields: the Ord impl uses cmp; a stand-alone PartialOrd impl uses
 \* partial_cmp; when both are educed partial_cmp is Some(cmp).
